@@ -55,6 +55,16 @@ UpdateP(p) == LET cx == p.x + p.shift_x  cy == p.y + p.shift_y  cz == p.z + p.sh
                             !.shift_z = cz - RoundHalfAway(cz)]
 UpdateAll(ps) == [i \in 1..Len(ps) |-> UpdateP(ps[i])]
 
+\* list operations performed on the live object between construction and conversion (at most two):
+\*   [op |-> "remove", cls |-> c, idx |-> <<>>]        remove_feature("class", c)
+\*   [op |-> "select", cls |-> 0, idx |-> <<i1, ...>>]  the rows at these positions, in this order (df[mask], sort_values, iloc)
+\* They leave non-default row labels behind; every conversion is positional on the surviving rows.
+ApplyOp(ps, h) == IF h.op = "remove" THEN SelectSeq(ps, LAMBDA p : p.class # h.cls)
+                  ELSE [k \in 1..Len(h.idx) |-> ps[h.idx[k]]]
+ApplyHist(ps, hist) == IF Len(hist) = 0 THEN ps
+                       ELSE IF Len(hist) = 1 THEN ApplyOp(ps, hist[1])
+                       ELSE ApplyOp(ApplyOp(ps, hist[1]), hist[2])
+
 Halfset(sid) == IF sid % 2 = 0 THEN "A" ELSE "B"
 
 ToSgRow(p, i, reset) ==
